@@ -1,6 +1,7 @@
 package main
 
 import (
+	"regexp"
 	"encoding/json"
 	"flag"
 	"fmt"
@@ -47,6 +48,7 @@ type KnownFinding struct {
 	What        string   `json:"what"`
 	Input       string   `json:"failing_input"`
 	Status      string   `json:"status"` // "open" or "fixed"
+	BoundedRe   string   `json:"bounded_violation_regex,omitempty"` // open findings of a bounded stand-in: matches its BOUNDED-VIOLATION lines
 	Commit      string   `json:"commit,omitempty"`
 }
 
@@ -346,7 +348,18 @@ func cmdCheck(args []string) int {
 		for _, ln := range strings.Split(out, "\n") {
 			ln = strings.TrimSpace(ln)
 			if strings.HasPrefix(ln, "BOUNDED-VIOLATION") {
-				br.Violations = append(br.Violations, ln)
+				known := false
+				for _, k := range loadKnownFindings() {
+					if k.Property == prop && k.Status == "open" && k.BoundedRe != "" {
+						if re, err := regexp.Compile(k.BoundedRe); err == nil && re.MatchString(ln) {
+							known = true
+							br.KnownHits++
+						}
+					}
+				}
+				if !known {
+					br.Violations = append(br.Violations, ln)
+				}
 			}
 			if strings.HasPrefix(ln, "BOUNDED-SUMMARY") {
 				br.Summary = ln
@@ -430,6 +443,7 @@ type BoundedResult struct {
 	Evaluations int      `json:"evaluations"`
 	Summary     string   `json:"summary"`
 	Violations  []string `json:"violations,omitempty"`
+	KnownHits   int      `json:"known_finding_hits,omitempty"`
 	Error       string   `json:"error,omitempty"`
 	Seconds     float64  `json:"seconds"`
 }
